@@ -30,6 +30,7 @@ def stepLine (s : S) (req resp : List String) : S × List String :=
         | "add", [n] => [s.model.step (.add (n.toNat?.getD 0))]
         | "rem", [n] => [s.model.step (.remove (n.toNat?.getD 0))]
         | "disp", [] => [s.model.step .dispatch]
+        | "dispd", [] => [s.model.step .dispatch]   -- a task deadline does not free the worker early
         | "fin", [] => [s.model.step .finishAlive, s.model.step .finishSleeping]
         | "cancel", [] => [s.model.step .cancelWaiting]
         | _, _ => []
